@@ -35,8 +35,9 @@ TranslateError naming file, line and construct); M = 2-D array, v = 1-D array, r
                  re._parser) and every node is translated: literal -> Ch, \\s \\d -> class, * + ? (greedy, on one literal or
                  class) -> Star / Plus / Opt, ( ) -> Open / Close (numbered groups, not nested)
                  _read_vecs: `line = next(fp).strip()` and a yield of tuples `float(line[a:b]) + float(line[c:d]) * 1j`, or of calls
-                 helper(line, INT) of a straight-line module-level helper returning such an expression (inlined; slice bounds
-                 are sums / differences of integer literals and of parameters bound to literals, folded exactly)
+                 helper(line, INT) of a straight-line module-level helper returning such an expression (inlined; locals may hold
+                 line[a:b], float(line[a:b]) or integers; slice bounds are sums / differences of integer literals and of
+                 parameters bound to literals, folded exactly); `tuple(<elt> for k in (<int literals>))` is unrolled
   all functions  straight-line module-level helpers are inlined at their call sites (translate_core.inline_call)
 
 ONLY PATTERN-CHECKED (exact text; no semantics in Coq) - glue:
@@ -463,7 +464,7 @@ def regex_atoms(pattern, file, node):
 def translate_load(source):
     mod = parse(source)
     module_imports(mod, LOAD, {"re": ("import re", "re")})
-    builtins_unshadowed(mod, LOAD, {"float", "next", "range"})
+    builtins_unshadowed(mod, LOAD, {"float", "next", "range", "tuple"})
     defs = []
     for name in ("Q_COORDS_REGEX", "MODE_INDEX_REGEX"):
         stores = [n for n in ast.walk(mod) if isinstance(n, ast.Name) and n.id == name and isinstance(n.ctx, (ast.Store, ast.Del))]
@@ -493,40 +494,55 @@ def translate_load(source):
     if len(lb) != 2 or src_of(lb[0]) != "line = next(fp).strip()" or not (isinstance(lb[1], ast.Expr) and isinstance(lb[1].value, ast.Yield)):
         raise TranslateError(LOAD, body[0], "_read_vecs loop body is not `line = next(fp).strip()` followed by one yield")
     tup = lb[1].value.value
-    if not isinstance(tup, ast.Tuple) or not tup.elts:
-        raise TranslateError(LOAD, lb[1], "_read_vecs does not yield a tuple")
+    unrolled = (isinstance(tup, ast.Call) and isinstance(tup.func, ast.Name) and tup.func.id == "tuple" and not tup.keywords
+                and len(tup.args) == 1 and isinstance(tup.args[0], ast.GeneratorExp) and len(tup.args[0].generators) == 1)
+    if unrolled:
+        g = tup.args[0].generators[0]
+        unrolled = (not g.ifs and not g.is_async and isinstance(g.target, ast.Name) and g.target.id != "line"
+                    and isinstance(g.iter, (ast.Tuple, ast.List)) and g.iter.elts
+                    and all(isinstance(k, ast.Constant) and type(k.value) is int for k in g.iter.elts))
+    if not unrolled and (not isinstance(tup, ast.Tuple) or not tup.elts):
+        raise TranslateError(LOAD, lb[1], "_read_vecs does not yield a tuple display or tuple(<expr> for k in (<int literals>))")
 
     LINE = object()          # marker: the stripped line
+    # values of the little evaluator: LINE | int | ("slice", a, b) = line[a:b] | str = a Gallina term `parse_float (..)`
 
     def ev_int(e, env):
-        """integer expression over literals and parameters bound to literals: + and - only, folded exactly"""
+        v = ev_value(e, env)
+        if type(v) is not int:
+            raise TranslateError(LOAD, e, "`%s` is not an integer literal / parameter / sum of them" % src_of(e)[:60])
+        return v
+
+    def ev_value(e, env):
         if isinstance(e, ast.Constant) and type(e.value) is int:
             return e.value
-        if isinstance(e, ast.Name) and isinstance(env.get(e.id), int) and not isinstance(env.get(e.id), bool):
+        if isinstance(e, ast.Name) and e.id in env:
             return env[e.id]
         if isinstance(e, ast.BinOp) and isinstance(e.op, (ast.Add, ast.Sub)):
-            l, r = ev_int(e.left, env), ev_int(e.right, env)
+            l, r = ev_int(e.left, env), ev_int(e.right, env)      # integers only, folded exactly
             return l + r if isinstance(e.op, ast.Add) else l - r
-        raise TranslateError(LOAD, e, "`%s` is not an integer literal / parameter / sum of them" % src_of(e)[:60])
-
-    def ev_float(e, env):
-        """float(line[a:b]) -> parse_float (slice a b l);  or a local bound to one"""
-        if isinstance(e, ast.Name) and isinstance(env.get(e.id), str):
-            return env[e.id]
+        if isinstance(e, ast.Subscript) and isinstance(e.slice, ast.Slice) and e.slice.step is None \
+                and e.slice.lower is not None and e.slice.upper is not None and ev_value(e.value, env) is LINE:
+            lo, hi = ev_int(e.slice.lower, env), ev_int(e.slice.upper, env)
+            if lo < 0 or hi < 0:
+                raise TranslateError(LOAD, e, "negative slice bound in `%s`" % src_of(e)[:60])
+            return ("slice", lo, hi)
         if isinstance(e, ast.Call) and isinstance(e.func, ast.Name) and e.func.id == "float" and "float" not in env \
                 and len(e.args) == 1 and not e.keywords:
-            sl = e.args[0]
-            if isinstance(sl, ast.Subscript) and isinstance(sl.value, ast.Name) and env.get(sl.value.id) is LINE \
-                    and isinstance(sl.slice, ast.Slice) and sl.slice.step is None \
-                    and sl.slice.lower is not None and sl.slice.upper is not None:
-                lo, hi = ev_int(sl.slice.lower, env), ev_int(sl.slice.upper, env)
-                if lo < 0 or hi < 0:
-                    raise TranslateError(LOAD, e, "negative slice bound in `%s`" % src_of(e)[:60])
-                return "(parse_float (slice %d %d l))" % (lo, hi)
-        raise TranslateError(LOAD, e, "`%s` (only float(line[a:b]) with bounds that are integer literals or sums of them)" % src_of(e)[:60])
+            v = ev_value(e.args[0], env)
+            if isinstance(v, tuple) and v[0] == "slice":
+                return "(parse_float (slice %d %d l))" % (v[1], v[2])
+        raise TranslateError(LOAD, e, "`%s` (only the line, integer literals and their sums, line[a:b], float(line[a:b]), "
+                                      "locals bound to these)" % src_of(e)[:60])
+
+    def ev_float(e, env):
+        v = ev_value(e, env)
+        if not isinstance(v, str):
+            raise TranslateError(LOAD, e, "`%s` is not float(line[a:b])" % src_of(e)[:60])
+        return v
 
     def ev_complex(c, env, depth=0):
-        """re + im * 1j   |   helper(line, INT, ..) with a straight-line body ending in such an expression"""
+        """re + im * 1j   |   helper(args) with a straight-line body ending in such an expression"""
         if isinstance(c, ast.Call) and isinstance(c.func, ast.Name) and c.func.id not in env and not c.keywords:
             hs = [x for x in mod.body if isinstance(x, ast.FunctionDef) and x.name == c.func.id]
             if len(hs) == 1 and depth < 2:
@@ -538,21 +554,15 @@ def translate_load(source):
                 forbid_dynamic(h, LOAD)
                 henv = {}
                 for p_, x in zip(ha.args, c.args):
-                    if isinstance(x, ast.Name) and env.get(x.id) is LINE:
-                        henv[p_.arg] = LINE
-                    else:
-                        henv[p_.arg] = ev_int(x, env)
+                    henv[p_.arg] = ev_value(x, env)
                 hb = body_no_doc(h)
                 if not hb or not isinstance(hb[-1], ast.Return) or hb[-1].value is None:
                     raise TranslateError(LOAD, h, "helper `%s` does not end in `return <expression>`" % h.name)
                 for st in hb[:-1]:
                     if not (isinstance(st, ast.Assign) and len(st.targets) == 1 and isinstance(st.targets[0], ast.Name)):
-                        raise TranslateError(LOAD, st, "statement `%s` in helper `%s` (only `local = float(line[a:b])` / "
-                                                       "`local = <integer expression>`)" % (src_of(st)[:60], h.name))
-                    try:
-                        henv[st.targets[0].id] = ev_float(st.value, henv)
-                    except TranslateError:
-                        henv[st.targets[0].id] = ev_int(st.value, henv)
+                        raise TranslateError(LOAD, st, "statement `%s` in helper `%s` (only `local = <line slice / float of it / "
+                                                       "integer expression>`)" % (src_of(st)[:60], h.name))
+                    henv[st.targets[0].id] = ev_value(st.value, henv)
                 return ev_complex(hb[-1].value, henv, depth + 1)
         ok = isinstance(c, ast.BinOp) and isinstance(c.op, ast.Add) and isinstance(c.right, ast.BinOp) and isinstance(c.right.op, ast.Mult)
         if ok:
@@ -565,7 +575,14 @@ def translate_load(source):
                                           "returning that)" % src_of(c)[:80])
         return ev_float(c.left, env), ev_float(im, env)
 
-    comps = [ev_complex(c, {"line": LINE}) for c in tup.elts]
+    env0 = {"line": LINE}
+    if isinstance(tup, ast.Tuple) and tup.elts:
+        comps = [ev_complex(c, env0) for c in tup.elts]
+    else:
+        # tuple(<elt> for k in (i1, i2, ..)): the generator over a LITERAL tuple / list of integers is consumed on the spot,
+        # in order - the same tuple as the one written out with k replaced by i1, i2, ..
+        g = tup.args[0].generators[0]
+        comps = [ev_complex(tup.args[0].elt, dict(env0, **{g.target.id: k.value})) for k in g.iter.elts]
     names = ["x%d" % k for k in range(2 * len(comps))]
     scrut = ", ".join(t for pair in comps for t in pair)
     pat = ", ".join("Some %s" % n for n in names)
